@@ -346,9 +346,22 @@ thread_local! {
     pub static LAST_PANIC_LOC: std::cell::RefCell<String> = const { std::cell::RefCell::new(String::new()) };
 }
 
+/// location and message of the most recent panic on any thread (for panics that escape `guarded`)
+pub static GLOBAL_LAST_PANIC: std::sync::Mutex<(String, String)> = std::sync::Mutex::new((String::new(), String::new()));
+
 pub fn silence_panics() {
     std::panic::set_hook(Box::new(|info| {
         let loc = info.location().map(|l| format!("{}:{}", l.file(), l.line())).unwrap_or_default();
+        let msg = if let Some(s) = info.payload().downcast_ref::<&str>() {
+            (*s).to_string()
+        } else if let Some(s) = info.payload().downcast_ref::<String>() {
+            s.clone()
+        } else {
+            String::new()
+        };
+        if let Ok(mut g) = GLOBAL_LAST_PANIC.lock() {
+            *g = (loc.clone(), msg);
+        }
         LAST_PANIC_LOC.with(|l| *l.borrow_mut() = loc);
     }));
 }
